@@ -23,7 +23,7 @@ const c20Rule = "files from generated histories (all page sizes, freelist persis
 func runCLI(args ...string) (int, string) {
 	cli := os.Getenv("VERIF_CLI")
 	if cli == "" {
-		cli = "/verif/build/bbolt"
+		cli = verifRoot() + "/build/bbolt"
 	}
 	b, err := exec.Command(cli, args...).CombinedOutput()
 	if err == nil {
